@@ -86,8 +86,9 @@ Theorem C05_empty_ok : state_ok s_empty.
 Proof. exact p_empty_ok. Qed.
 Print Assumptions C05_empty_ok.
 
-(* renames (of types, pointers, link properties), abstract<->concrete and required<->optional emit
-   no table/column command at all: storage is neither orphaned nor moved *)
+(* renames (of types, of link properties, of pointers whose column is id-named), abstract<->concrete,
+   required<->optional and SET TYPE .. USING emit no lasting table/column command: storage is neither
+   orphaned nor moved (the transient temporary column of _alter_pointer_type is not modelled) *)
 Theorem C05_rename_free : forall s e s',
   storage_neutral e = true -> sstep s e = SOk s' -> s_f s' = s_f s /\ s_c s' = s_c s.
 Proof. exact p_rename_free. Qed.
@@ -96,11 +97,18 @@ Print Assumptions C05_rename_free.
 (* the compiler's IR-level copy of the storage decision (the _ptrref_storable_in_... functions of
    types.py) is the same function as the schema-level one (_pointer_storable_in_...), both as
    regenerated from source *)
-Theorem C05_ptrref_agrees : forall singular has_props,
-  ref_in_source singular has_props = ptr_in_source singular has_props /\
-  ref_in_pointer singular has_props = ptr_in_pointer singular has_props.
+Theorem C05_ptrref_agrees : forall a b,
+  ref_in_source a b = ptr_in_source a b /\
+  ref_in_pointer a b = ptr_in_pointer a b /\
+  ref_col_by_name a b = ptr_col_by_name a b.
 Proof. exact p_ptrref_agrees. Qed.
 Print Assumptions C05_ptrref_agrees.
+
+(* the column of a pointer other than `id` is named after the pointer (so a rename is not free)
+   exactly for names starting with two underscores; the model leaves those renames out of scope *)
+Theorem C05_named_column_dunder : forall p, named_column p = dunder p.
+Proof. exact p_named_column_dunder. Qed.
+Print Assumptions C05_named_column_dunder.
 
 (* ---- non-vacuity: the hypotheses are satisfiable on non-trivial histories *)
 
